@@ -73,6 +73,8 @@ pub fn run(out: &mut Out, thorough: bool, seed: u64, _extra: &[String]) {
                 if tol > 0.25 { out.raw(&format!("!NOTE rotate_vector slot check skipped: key-switch noise bound exceeds the scale (special prime much smaller than a coefficient prime)")); }
                 else if ok { out.raw(&format!("!OK rotate_vector_slots n={} step={} # ckks-slots", n, st)); } else { out.raw(&format!("!FAIL rotate_vector_slots n={} step={} :: decoded slots are not the input rotated left by step # ckks-slots", n, st)); }
             }
+            if n <= 16 { let g = 2 * n - 1; out.case(&format!("ks_op galois {} {} | {} | {} | {}", g, fl(&key_qs(&s)), s.ct_case(&ct), kskey_str(&s, all_keys.key(g)), s.ct_case(&s.evaluator.apply_galois_new(&ct, g, &all_keys))), "ks-ckks-conj", || "ok".to_string());
+                let g3 = 3; out.case(&format!("ks_op galois {} {} | {} | {} | {}", g3, fl(&key_qs(&s)), s.ct_case(&ct), kskey_str(&s, all_keys.key(g3)), s.ct_case(&s.evaluator.apply_galois_new(&ct, g3, &all_keys))), "ks-ckks-rot1", || "ok".to_string()); }
             let res = s.evaluator.complex_conjugate_new(&ct, &all_keys);
             out.case(&format!("galois_ckks {} {} {} | {}", 2 * n - 1, p_special, s.ct_case(&ct), s.ct_case(&res)), &format!("ckks-conj-n{}", n), || "ok".to_string());
             let dec = enc.decode_new(&s.decryptor.decrypt_new(&res));
@@ -95,6 +97,7 @@ pub fn run(out: &mut Out, thorough: bool, seed: u64, _extra: &[String]) {
             let own = s.keygen.create_galois_keys_from_elts(&elts, false);
             for &g in &elts {
                 let res = s.evaluator.apply_galois_new(&ct, g, &own);
+                if n <= 16 { out.case(&format!("ks_op galois {} {} | {} | {} | {}", g, fl(&key_qs(&s)), s.ct_case(&ct), kskey_str(&s, own.key(g)), s.ct_case(&res)), &format!("ks-{}-galois-l{}", scheme_name(scheme), level), || "ok".to_string()); }
                 let want = shadow_subst(&msg, g, t);
                 out.case(&format!("prog {} {} {}", s.ct_case(&res), pred0, fl(&trim(&want))), &format!("{}-galois-l{}", scheme_name(scheme), level), || s.dec_str(&res));
             }
